@@ -2,7 +2,7 @@
     Statements only; proofs in Proofs/InterpLaws.v and Proofs/InterpInv.v. *)
 From Coq Require Import List ZArith NArith Bool.
 From RRSS Require Import Base.Outcome Base.Chars Base.F64 Exec.Val Exec.Ops Front.Ast Exec.Env Exec.Interp.
-From RRSS Require Import Proofs.InterpInv Proofs.InterpLaws.
+From RRSS Require Import Exec.Sem Proofs.InterpInv Proofs.InterpLaws Proofs.SemRefine.
 Import ListNotations.
 
 (** an if evaluates its condition once and runs exactly one branch, chosen by truthiness *)
@@ -45,6 +45,25 @@ Theorem C04_while_until_clause :
   exec_stmt prof (S f) (SWhile c b) xs e = after_tick e (exec_loop prof f false c b xs) /\
   exec_stmt prof (S f) (SUntil c b) xs e = after_tick e (exec_loop prof f true c b xs).
 Proof. exact while_until_clause. Qed.
+
+(** Refinement: the interpreter's flag machine (ExecStmt's block-state flags and return slot) computes
+    exactly the structured semantics of Exec/Sem.v, where a statement finishes normally or asks to break,
+    continue or return; a block stops at the first statement that does not finish normally; an `if` runs
+    the branch its condition selects; a loop re-evaluates its condition before every iteration, turns break
+    into normal completion and continue into the next iteration, and passes return on.  Same environment
+    (hence same output written and input consumed), same error, for every statement, block and loop, any
+    fuel, both profiles, from any environment with at least one scope. *)
+Theorem C04_exec_stmt_refines :
+  forall prof f s e, wf e -> xmap to_outcome (exec_stmt prof f s x_init e) = sem_stmt prof f s e.
+Proof. exact exec_stmt_refines. Qed.
+
+Theorem C04_exec_block_refines :
+  forall prof f b e, wf e -> xmap to_outcome (exec_block prof f b x_init e) = sem_block prof f b e.
+Proof. exact exec_block_refines. Qed.
+
+Theorem C04_exec_loop_refines :
+  forall prof f inv c b e, wf e -> xmap to_outcome (exec_loop prof f inv c b x_init e) = sem_loop prof f inv c b e.
+Proof. exact exec_loop_refines. Qed.
 
 (** break leaves and continue restarts only the innermost enclosing loop: a loop entered with a normal
     flag always ends with a normal flag or a pending return, for every body — the break/continue flag
@@ -94,3 +113,4 @@ Theorem C04_output_preserved_program :
 Proof. exact output_preserved_program. Qed.
 
 Print Assumptions C04_output_preserved_program.
+Print Assumptions C04_exec_stmt_refines.
